@@ -95,6 +95,10 @@ pub struct SrvConfig {
     pub units: Vec<(u8, UnitState)>,
     pub auth: Option<(Policy, String)>,
     pub decode: Decode,
+    /// further unit ids served by the handler *instance* of another unit (alias id, owner id):
+    /// ServerHandlerMap::add takes the same Arc<Mutex<handler>> under several ids
+    #[serde(default)]
+    pub aliases: Vec<(u8, u8)>,
 }
 
 impl SrvConfig {
@@ -103,6 +107,17 @@ impl SrvConfig {
         let mut m = BTreeMap::new();
         for (u, s) in &self.units {
             m.insert(*u, s.clone());
+        }
+        m
+    }
+    /// alias id -> owner id, for aliases that name a configured owner and are not units themselves
+    pub fn alias_map(&self) -> BTreeMap<u8, u8> {
+        let units = self.unit_map();
+        let mut m = BTreeMap::new();
+        for (a, o) in &self.aliases {
+            if units.contains_key(o) && !units.contains_key(a) {
+                m.insert(*a, *o);
+            }
         }
         m
     }
@@ -209,6 +224,11 @@ pub fn run_server(cfg: &SrvConfig, steps: &[Step], opt: &SrvOptions) -> SrvRun {
         let h = rodbus::server::RequestHandler::wrap(LogHandler::new(u, st, log.clone()));
         map.add(UnitId::new(u), h.clone());
         handlers.push((u, h));
+    }
+    for (a, o) in cfg.alias_map() {
+        if let Some((_, h)) = handlers.iter().find(|(u, _)| *u == o) {
+            map.add(UnitId::new(a), h.clone());
+        }
     }
     let auth = cfg.auth.as_ref().map(|(p, role)| {
         let a: Arc<dyn rodbus::server::AuthorizationHandler> =
